@@ -28,6 +28,9 @@ extern struct zstd_verif_ghost_s zstd_verif_ghost;
 #define ZSTD_VERIF_GHOST_CELL_INV(table, size, done) \
     (zstd_verif_ghost.cell_idx >= (size_t)(size) \
      || (table)[zstd_verif_ghost.cell_idx] == (zstd_verif_ghost.cell_idx < (size_t)(done) ? zstd_verif_ghost.cell_new : zstd_verif_ghost.cell_old))
+/* the two compressed-block states of a context are swapped, never replaced: the pair of pointers is the pair (p, n) in some order */
+#define ZSTD_VERIF_BLOCKSTATE_SWAPPED(zc, p, n) \
+    (((zc)->blockState.prevCBlock == (p) && (zc)->blockState.nextCBlock == (n)) || ((zc)->blockState.prevCBlock == (n) && (zc)->blockState.nextCBlock == (p)))
 #define ZSTD_VERIF_BITS_CONSUMED(n) \
     do { if ((n) > zstd_verif_ghost.bits_high) zstd_verif_ghost.bits_high = (n); } while (0)
 
